@@ -221,7 +221,7 @@ namespace AIToolbox {
     size_t sampleProbability(const size_t d, const SparseMatrix2D::ConstRowXpr& in, G& generator) {
         double p = probabilityDistribution(generator);
 
-        for ( SparseMatrix2D::ConstRowXpr::InnerIterator i(in, 0); ; ++i ) {
+        for ( SparseMatrix2D::ConstRowXpr::InnerIterator i(in, 0); i; ++i ) {
             if ( i.value() > p ) return i.col();
             p -= i.value();
         }
